@@ -25,7 +25,7 @@ CHECKS = {
          'contexts were still live. LockTrace.tla re-executes the script semantics on the reconstructed key state (a deviating script '
          'is a rejected trace) and evaluates MutualExclusion, DoneBeforeRelease, Prompt (context done within ExtendInterval + 1 s after '
          'the server shows the holder below the majority) and NoStuckWaiter per scenario.',
-    design_ref='DESIGN.md 4.6, 5 C34, 7 #13, A.4; proposed/design_lockaside.md',
+    design_ref='DESIGN.md 4.6, 5 C34, 7 #13, A.4; design/lockaside.md',
     note='Trusted: TLC, fakeredis + luamini as the Redis double (tracking, invalidation on expiry, PXAT), the sink reading contexts under '
          'the dispatcher mutex. Bounded: TLC 2-3 callers, K=3; real runs approximate the order of the TLC behaviour they come from and '
          'depend on wall-clock timing (verdicts only from the recorded trace; timing-dependent verdicts must reproduce). Close() of a '
@@ -46,7 +46,7 @@ CHECKS = {
          'lock-protocol command with the key value before/after, the driver logs Get results and loader runs; AsideTrace.tla '
          're-executes the commands on the reconstructed store and evaluates the properties per scenario (dead-lock release with a '
          'wall-clock bound of ClientTTL + 1.2 s).',
-    design_ref='DESIGN.md 4.6, 5 C39; proposed/design_lockaside.md',
+    design_ref='DESIGN.md 4.6, 5 C39; design/lockaside.md',
     note='Trusted: TLC, fakeredis + luamini, the simulated client death (connections cut, dials refused). Bounded: one Get per client at a '
          'time in TLC; client-side cache TTL expiry abstracted away (it only causes additional reads). A reconnect makes the client drop '
          'its id and delete its liveness key, so a second loader after a holder\'s reconnect is by design and excused.'),
